@@ -10,6 +10,7 @@ import sys
 sys.path.insert(0, '.')
 from mirsym.world import World
 World(("uplc",), deps=("pallas-codec",))
+World(("aiken-project", "uplc"), deps=("pallas-codec",))  # first dump compiles aiken-project's dependencies with the nightly (long)
 print("MIR dumps ok")
 PY
 (cd driver && cargo build --offline -j 14 --target-dir "$HERE/.cache/driver-target" 2>&1 | tail -3)
